@@ -1,6 +1,6 @@
 (* C07: resuming from a checkpoint reproduces the first run. *)
 From Coq Require Import List ZArith Bool.
-From DF Require Import Base.Str Base.Value IO.EJson IO.EJson_proofs IO.EJsonInst IO.JsonText IO.JsonText_proofs IO.JsonLine_proofs IO.Stream IO.Stream_proofs.
+From DF Require Import Base.Str Base.Value IO.EJson IO.EJson_proofs IO.EJsonInst IO.JsonText IO.JsonText_proofs IO.JsonLine_proofs IO.Stream IO.Stream_proofs IO.StreamText_proofs.
 Import ListNotations.
 Open Scope Z_scope.
 
@@ -75,6 +75,39 @@ Theorem C07_stream_roundtrip : forall (D R : Type) (encD : D -> line) decD (encR
   unstream_lines D R decD decR nres (stream_lines D R encD encR (d, rss)) = Some (d, rss).
 Proof. exact stream_roundtrip. Qed.
 Print Assumptions C07_stream_roundtrip.
+
+(* json.dumps output (ensure_ascii) is printable ASCII for every tree: a written line holds no line break of any kind *)
+Theorem C07_json_text_is_printable_ascii : forall j, Forall (fun c => 32 <= c <= 126) (jprint j).
+Proof. exact jprint_printable. Qed.
+Print Assumptions C07_json_text_is_printable_ascii.
+
+(* the text of a file written line by line splits back into exactly those lines *)
+Theorem C07_file_lines_recovered : forall ls,
+  Forall (Forall (fun c => 32 <= c <= 126)) ls -> split_lines (file_text ls) = ls.
+Proof. exact split_file_text. Qed.
+Print Assumptions C07_file_lines_recovered.
+
+(* composition of the three layers (file text, stream framing, JSON line codec): the text written by stream / checkpoint,
+   split into lines and decoded, is the package that was written -- the descriptor and every row of every resource, in
+   order, empty resources included -- for all values in the codec's domain (no binary floats, valid code points) *)
+Theorem C07_stream_file_roundtrip : forall K dec_str dec_parse time_str time_parse dt_str dt_parse date_str date_parse dur_str dur_parse nres,
+  (forall m e, dec_parse (dec_str m e) = Some (m, e)) ->
+  (forall h mi sc, time_parse (time_str h mi sc) = Some (h, mi, sc)) ->
+  (forall y mo d h mi sc, dt_parse (dt_str y mo d h mi sc) = Some (y, mo, d, h, mi, sc)) ->
+  (forall y mo d, date_parse (date_str y mo d) = Some (y, mo, d)) ->
+  (forall d sc us, dur_parse (dur_str d sc us) = Some (d, sc, us)) ->
+  str_nodup [k_dec K; k_time K; k_dt K; k_date K; k_dur K; k_set K] = true ->
+  Forall char_ok (k_dec K) /\ Forall char_ok (k_time K) /\ Forall char_ok (k_dt K) /\ Forall char_ok (k_date K) /\ Forall char_ok (k_dur K) ->
+  (forall m e, Forall char_ok (dec_str m e)) -> (forall h mi sc, Forall char_ok (time_str h mi sc)) ->
+  (forall y mo d h mi sc, Forall char_ok (dt_str y mo d h mi sc)) -> (forall y mo d, Forall char_ok (date_str y mo d)) ->
+  (forall d sc us, Forall char_ok (dur_str d sc us)) ->
+  let enc := fun v => jprint (encode K dec_str time_str dt_str date_str dur_str v) in
+  let dec := read_line K dec_parse time_parse dt_parse date_parse dur_parse in
+  let ok := fun v => ejson_ok K v = true /\ text_ok v in
+  forall d rss, ok d -> Forall (Forall ok) rss -> nres d = length rss ->
+  unstream_lines value value dec dec nres (split_lines (file_text (stream_lines value value enc enc (d, rss)))) = Some (d, rss).
+Proof. exact stream_file_roundtrip. Qed.
+Print Assumptions C07_stream_file_roundtrip.
 
 (* every run of every run/delete history returns the first run's package; the steps before the
    checkpoint execute exactly when no checkpoint exists (first run, or after the directory was removed) *)
